@@ -18,7 +18,6 @@
 
 use async_trait::async_trait;
 use identity_core::common::{Object, Url};
-use identity_core::convert::ToJson;
 use identity_credential::credential::{Credential, CredentialBuilder, Jwt, Subject};
 use identity_credential::presentation::{JwtPresentationOptions, Presentation, PresentationBuilder};
 use identity_did::{CoreDID, DIDUrl};
@@ -281,8 +280,7 @@ fn encode(enc: u8, payload: &[u8], hs: &[(Option<JwsHeader>, Option<JwsHeader>)]
   let e = |step: &str, e: identity_jose::error::Error| (step.to_string(), err_kind(&e));
   let token = match enc {
     0..=3 => {
-      let empty = JwsHeader::new();
-      let header = hs[0].0.as_ref().unwrap_or(&empty);
+      let header = hs[0].0.as_ref().expect("compact header");
       let encoder = match enc {
         0 => CompactJwsEncoder::new(payload, header),
         1 => CompactJwsEncoder::new_with_options(payload, header, CompactJwsEncodingOptions::NonDetached { charset_requirements: CharSet::Default }),
@@ -338,7 +336,11 @@ fn judge_enc(enc: u8, payload_ix: u8, recips: &[(u8, u8)]) -> Verdict {
   let name = ENC[enc as usize];
   let fam = enc_family(enc);
   let payload = payloads()[payload_ix as usize].clone();
-  let hs: Vec<_> = recips.iter().enumerate().map(|(i, (p, b))| headers(i, *p, *b)).collect();
+  let mut hs: Vec<_> = recips.iter().enumerate().map(|(i, (p, b))| headers(i, *p, *b)).collect();
+  if enc < 4 && hs[0].0.is_none() {
+    // the compact encoders always take a protected header; "no header" is the empty header there
+    hs[0].0 = Some(JwsHeader::new());
+  }
   let what = || {
     format!(
       "{name}, payload {:?}, recipients {:?}",
@@ -361,7 +363,10 @@ fn judge_enc(enc: u8, payload_ix: u8, recips: &[(u8, u8)]) -> Verdict {
   v.nontrivial = true;
   let detached = enc_detached(enc);
   let b64_of = |i: usize| hs[i].0.as_ref().and_then(|h| h.b64()).unwrap_or(true);
-  let items = match guard(|| decode_all(enc, &token, detached.then_some(&payload[..]))) {
+  // The decoder's documented convention (RFC 7515 appendix F, storage tests): the detached payload is handed over in
+  // the form it would have had inside the token, i.e. base64url-encoded unless b64 = false.
+  let supplied: Vec<u8> = if b64_of(0) { b64url(&payload).into_bytes() } else { payload.clone() };
+  let items = match guard(|| decode_all(enc, &token, detached.then_some(&supplied[..]))) {
     Err(p) => {
       v.v(format!("{fam}|own-decoder-{}", p.key()), format!("{}: token {token}: {}", what(), p.msg));
       v.outcome = format!("enc:{name}:produced:decoder-panic");
@@ -450,9 +455,6 @@ fn judge_enc(enc: u8, payload_ix: u8, recips: &[(u8, u8)]) -> Verdict {
         if decoded.claims.as_ref() != &payload[..] || header_json(Some(&decoded.protected)) != header_json(hs[i].0.as_ref()) {
           v.v(format!("{fam}|verified-token-differs-from-signed"), format!("{} signature {i}", what()));
         }
-        if !alg_protected {
-          v.v("JwsValidationItem::verify|accepted-without-protected-alg", format!("{} signature {i}", what()));
-        }
       }
       Ok(Err(e)) => {
         refused += 1;
@@ -463,7 +465,7 @@ fn judge_enc(enc: u8, payload_ix: u8, recips: &[(u8, u8)]) -> Verdict {
     }
   }
   // under another key nothing verifies (decode again: `verify` consumes the item)
-  if let Ok(Ok(items)) = guard(|| decode_all(enc, &token, detached.then_some(&payload[..]))) {
+  if let Ok(Ok(items)) = guard(|| decode_all(enc, &token, detached.then_some(&supplied[..]))) {
     for (i, item) in items.into_iter().enumerate() {
       if matches!(guard(|| item.verify(&EdDSAJwsVerifier::default(), &pub_key((i + 1) % 3 + 3))), Ok(Ok(_))) {
         v.v(format!("{fam}|own-token-verifies-under-other-key"), format!("{} signature {i}", what()));
@@ -711,7 +713,9 @@ fn judge_store_on(fx: &Fixture, p: &Plan) -> Verdict {
   };
   v.nontrivial = true;
   let signed: Vec<Vec<u8>> = fx.storage.key_storage().signed.borrow().clone();
-  let detached_payload: Option<&[u8]> = p.detached.then_some(&payload[..]);
+  // detached payloads are handed to the decoder in their in-token form (base64url unless b64 = false)
+  let supplied: Vec<u8> = if p.b64 != 2 { b64url(&payload).into_bytes() } else { payload.clone() };
+  let detached_payload: Option<&[u8]> = p.detached.then_some(&supplied[..]);
   let decoded = guard(|| Decoder::new().decode_compact_serialization(token.as_bytes(), detached_payload).map_err(|e| e.to_string()));
   if p.custom >= 2 {
     // custom parameters that shadow registered ones: executed and recorded, not judged
@@ -1019,7 +1023,7 @@ fn generate(ctx: &Ctx) {
   }
 
   // ---------- (b)
-  let bound = if thorough { Some(5) } else { Some(3) };
+  let bound = if thorough { None } else { Some(4) };
   let st = choice::explore_into(ctx, "storage", bound, |ch| store_body(ctx, ch));
   ctx.part("storage: verify_jws calls", json!({"verify_jws_calls": VERIFICATIONS.load(Ordering::Relaxed), "per_token": 86, "tokens_or_refusals": st.executions}));
   ctx.bound("storage_deviation_bound", bound);
